@@ -69,6 +69,44 @@ def wrap(cache, cfg, f):
     raise HarnessError(f"unknown decorator {d}")
 
 
+class _Ctx:
+    """state of the wrapped function for the case being executed"""
+
+    def __init__(self, cfg, loop, main_task):
+        self.cfg = cfg
+        self.loop = loop
+        self.main_task = main_task
+        self.nexec = {a: 0 for a in ARGS}
+        self.gates = {a: [] for a in ARGS}        # in flight: (id, future, start tick)
+        self.execs = []                           # every execution: dict(arg,id,start,end,outcome,bg)
+        self.cur = {"outcome": "ok"}
+
+
+_CTX: _Ctx | None = None
+
+
+async def wrapped_function(arg):
+    """THE decorated function (one module-level object for all cases: cashews caches key templates and signatures per
+    function object).  Consults the script: the outcome of a foreground execution is the current call's, a background
+    execution (a task other than the harness's own, only when background=True) parks until its `done` operation."""
+    ctx = _CTX
+    n = ctx.nexec[arg]
+    ctx.nexec[arg] += 1
+    rec = {"arg": arg, "id": n, "start": CLOCK.ticks(), "end": None, "outcome": None, "bg": False}
+    ctx.execs.append(rec)
+    out = ctx.cur["outcome"]
+    if asyncio.current_task() is not ctx.main_task and ctx.cfg["bg"] and ctx.cfg["decor"] in ("early", "hit"):
+        rec["bg"] = True
+        fut = ctx.loop.create_future()
+        ctx.gates[arg].append((n, fut, rec["start"]))
+        out = await fut
+    rec["end"] = CLOCK.ticks()
+    rec["outcome"] = out
+    if out == "ok":
+        return (rec["end"], n)
+    raise (Listed if out == "lis" else Unlisted)(out)
+
+
 async def _quiesce():
     loop = asyncio.get_running_loop()
     for _ in range(10000):
@@ -87,29 +125,11 @@ async def _execute(cfg, ops):
     cache = Cache()
     cache.setup(STORES[cfg["store"]])
     await cache.init()
-    main_task = asyncio.current_task()
-    nexec = {a: 0 for a in ARGS}
-    gates = {a: [] for a in ARGS}             # in flight: (id, future, start tick)
-    execs = []                                # every execution: dict(arg,id,start,end,outcome,bg)
-    cur = {"outcome": "ok"}
-
-    async def f(arg):
-        n = nexec[arg]
-        nexec[arg] += 1
-        rec = {"arg": arg, "id": n, "start": CLOCK.ticks(), "end": None, "outcome": None, "bg": False}
-        execs.append(rec)
-        out = cur["outcome"]
-        if asyncio.current_task() is not main_task and cfg["bg"] and cfg["decor"] in ("early", "hit"):
-            rec["bg"] = True
-            fut = loop.create_future()
-            gates[arg].append((n, fut, rec["start"]))
-            out = await fut
-        rec["end"] = CLOCK.ticks()
-        rec["outcome"] = out
-        if out == "ok":
-            return (rec["end"], n)
-        raise (Listed if out == "lis" else Unlisted)(out)
-
+    ctx = _Ctx(cfg, loop, asyncio.current_task())
+    global _CTX
+    _CTX = ctx
+    nexec, gates, execs, cur = ctx.nexec, ctx.gates, ctx.execs, ctx.cur
+    f = wrapped_function
     g = wrap(cache, cfg, f)
     events = []
     for line in ops:
@@ -135,6 +155,7 @@ async def _execute(cfg, ops):
                 res = ("other", type(exc).__name__)
             ran = [e for e in execs if e["end"] is not None][done_before:]
             await _quiesce()
+            late = [e for e in execs if e["end"] is not None][done_before + len(ran):]
             if CLOCK.ticks() != t:
                 raise HarnessError("virtual time moved during a call")
             new = execs[started_before:]
@@ -151,6 +172,7 @@ async def _execute(cfg, ops):
                            "n": len(gates[arg]), "infl_before": infl_before,
                            "started_id": gates[arg][-1][0] if b else None,
                            "ran": [(e["id"], e["end"], e["outcome"]) for e in ran if e["arg"] == arg],
+                           "late": [(e["id"], e["end"], e["outcome"]) for e in late if e["arg"] == arg],
                            "impl": f"{shown} x={x} b={b} n={len(gates[arg])}"})
         elif w[0] == "adv":
             CLOCK.advance(int(w[1]))
@@ -291,7 +313,7 @@ def oracle(cfg, events):
             if L and age < inner and age < ttl and not (res == f"stored:{L[0]}:{L[1]}" and x == 0 and b == 0):
                 bad(i, "early-young-not-served", f"stored result aged {age} < early_ttl={inner} but the call gave {res} x={x} b={b}")
             if L and age < ttl and res != f"stored:{L[0]}:{L[1]}":
-                if (not bg) and kind == "raised" and x == 1 and age > inner:
+                if (not bg) and kind == "raised" and x == 1 and age >= inner:
                     bad(i, D19, f"background=False: the refresh raised and the call raised too instead of answering "
                                f"from the store (stored result aged {age}, early_ttl={inner}, ttl={ttl})")
                     seen.add("foreground_refresh_failed")
@@ -387,7 +409,7 @@ def oracle(cfg, events):
                 seen.add("call_while_refresh_in_flight")
             if live and k > hits + 1:
                 seen.add("counter_kept_growing_after_failed_execution")
-        for rid, rend, rout in ev["ran"]:
+        for rid, rend, rout in ev["ran"] + ev["late"]:
             if rout == "ok":
                 last[arg] = (rend, rid)
     return problems, seen
@@ -468,3 +490,43 @@ def gen_ops(rng, cfg, maxlen=14):
             if cfg["bg"]:
                 infl[arg] += 1 if rng.random() < 0.5 else 0
     return ops
+
+
+# ------------------------------------------------------------------------------------------------------------------
+# exhaustive enumeration of short histories over a boundary alphabet (one argument value)
+# ------------------------------------------------------------------------------------------------------------------
+
+ENUM = [
+    # cfg (ttl 2 s, inner ½ s), alphabet: the gaps 4,12,1 reach ages exactly early/soft (4), between (5), exactly ttl (16), beyond (17)
+    ({"decor": "early", "ttl": 16, "inner": 4, "hits": 0, "upd": 0, "bg": 1, "store": "plain"},
+     ["call a ok", "call a lis", "adv 4", "adv 12", "adv 1", "done a 0 ok", "done a 0 lis"]),
+    ({"decor": "early", "ttl": 16, "inner": 4, "hits": 0, "upd": 0, "bg": 0, "store": "plain"},
+     ["call a ok", "call a lis", "adv 4", "adv 12", "adv 1"]),
+    ({"decor": "soft", "ttl": 16, "inner": 4, "hits": 0, "upd": 0, "bg": 0, "store": "plain"},
+     ["call a ok", "call a lis", "call a unl", "adv 4", "adv 12", "adv 1"]),
+    ({"decor": "fail", "ttl": 16, "inner": 0, "hits": 0, "upd": 0, "bg": 0, "store": "plain"},
+     ["call a ok", "call a lis", "call a unl", "adv 15", "adv 1"]),
+    ({"decor": "hit", "ttl": 16, "inner": 0, "hits": 2, "upd": 1, "bg": 1, "store": "plain"},
+     ["call a ok", "call a lis", "adv 15", "adv 1", "done a 0 ok", "done a 0 lis"]),
+    ({"decor": "hit", "ttl": 16, "inner": 0, "hits": 2, "upd": 2, "bg": 0, "store": "plain"},
+     ["call a ok", "call a lis", "adv 15", "adv 1"]),
+]
+
+
+def enumerate_histories(alphabet, maxlen):
+    """all non-empty op lists up to maxlen that start with a call and in which a `done` only occurs after a call"""
+    out = []
+
+    def rec(prefix):
+        if prefix:
+            out.append(list(prefix))
+        if len(prefix) == maxlen:
+            return
+        for a in alphabet:
+            if not prefix and not a.startswith("call"):
+                continue
+            prefix.append(a)
+            rec(prefix)
+            prefix.pop()
+    rec([])
+    return out
